@@ -483,3 +483,81 @@ impl Check for C10 {
         })
     }
 }
+
+// ---------------------------------------------------------------------------------------------
+// C20 file generator: encoder-written bigWig / bigBed files on a 12-base chromosome plus a JSON
+// manifest of their content, consumed by py/c20_values.py (which drives the built extension).
+
+pub fn gen_c20(dir: &str, thorough: bool) {
+    use crate::model::{bed_layouts, wig_layouts};
+    const CL: u32 = 12;
+    std::fs::create_dir_all(dir).unwrap();
+    let mut manifest = vec![];
+    let wl: Vec<Vec<(u32, u32)>> = wig_layouts(3, CL).into_iter().filter(|l| l.iter().all(|(s, e)| e > s)).collect();
+    let bl: Vec<Vec<(u32, u32)>> = bed_layouts(3, CL).into_iter().filter(|l| l.iter().all(|(s, e)| e > s)).collect();
+    let nw = if thorough { 60 } else { 14 };
+    let nb = if thorough { 40 } else { 10 };
+    let pick = |n: usize, total: usize| -> Vec<usize> { (0..n).map(|i| (i * total / n + i * 7) % total).collect() };
+    let vals = [1.0f32, 2.0, -3.0, 0.5, 4.0, -0.25];
+    for (k, li) in pick(nw, wl.len()).into_iter().enumerate() {
+        let items: Vec<(u32, u32, f32)> = wl[li].iter().enumerate().map(|(i, (s, e))| (*s, *e, vals[(i + k) % vals.len()])).collect();
+        let spec = EncSpec {
+            bed: false,
+            le: k % 4 != 3,
+            compress: k % 2 == 0,
+            version: 4,
+            chroms: vec![EncChrom { name: "c".into(), size: CL, wig: items.chunks(2).map(|c| WigSec::T1(c.to_vec())).collect(), bed: vec![] }],
+            chrom_block: 64,
+            chrom_level_order: false,
+            fanout: 2,
+            placement: Placement::LevelOrder,
+            zooms: vec![2, 4],
+            zoom_ips: 2,
+            zoom_blocks_span_chroms: false,
+            trailing_magic: true,
+            index_last: false,
+            autosql: None,
+        };
+        let path = format!("{}/w{}.bw", dir, k);
+        std::fs::write(&path, encode(&spec).bytes).unwrap();
+        let mut pb: Vec<Option<f32>> = vec![None; CL as usize];
+        for (s, e, v) in &items {
+            for b in *s..*e {
+                pb[b as usize] = Some(*v);
+            }
+        }
+        manifest.push(json!({"path": path, "kind": "bigwig", "chrom": "c", "length": CL, "per_base": pb, "items": items}));
+    }
+    for (k, li) in pick(nb, bl.len()).into_iter().enumerate() {
+        let entries: Vec<(u32, u32, String)> = bl[li].iter().enumerate().map(|(i, (s, e))| (*s, *e, format!("e{}", i))).collect();
+        let spec = EncSpec {
+            bed: true,
+            le: k % 4 != 3,
+            compress: k % 2 == 0,
+            version: 4,
+            chroms: vec![EncChrom { name: "c".into(), size: CL, wig: vec![], bed: entries.chunks(2).map(|c| c.to_vec()).collect() }],
+            chrom_block: 64,
+            chrom_level_order: false,
+            fanout: 2,
+            placement: Placement::LevelOrder,
+            zooms: vec![2, 4],
+            zoom_ips: 2,
+            zoom_blocks_span_chroms: false,
+            trailing_magic: true,
+            index_last: false,
+            autosql: None,
+        };
+        let path = format!("{}/b{}.bb", dir, k);
+        std::fs::write(&path, encode(&spec).bytes).unwrap();
+        let mut depth = vec![0u32; CL as usize];
+        for (s, e, _) in &entries {
+            for b in *s..*e {
+                depth[b as usize] += 1;
+            }
+        }
+        let pb: Vec<Option<f32>> = depth.iter().map(|d| if *d > 0 { Some(*d as f32) } else { None }).collect();
+        manifest.push(json!({"path": path, "kind": "bigbed", "chrom": "c", "length": CL, "per_base": pb, "items": entries}));
+    }
+    std::fs::write(format!("{}/manifest.json", dir), serde_json::to_string(&manifest).unwrap()).unwrap();
+    println!("GENERATED {}", manifest.len());
+}
